@@ -511,5 +511,28 @@ Proof.
     destruct (r_q (rxr s)) as [|e t] eqn:Eq; inversion H; subst; clear H; simpl; rewrite Rq; simpl.
     + exists m; split; auto.
     + eexists; split; [reflexivity|].
-      inversion Rg; subst. constructor; simpl; auto; try congruence. rewrite Eq. auto.
+      inversion Rg; subst. constructor; simpl; auto; try congruence; rewrite ?Eq; simpl; auto.
+  - (* Rx *)
+    destruct ((256 <=? hl) || (max_rx s - 2 <? blen body)) eqn:Pre.
+    { inversion H; subst; clear H. exists m; split; auto. }
+    rewrite orb_false_iff in Pre. destruct Pre as [P1 P2]. apply N.leb_gt in P1. apply N.ltb_ge in P2.
+    destruct (alloc_front (c_R cf) (rxr s) (max_rx s + c_o cf)) as [off|].
+    2:{ destruct (next_transmit cf s) as [s1 [[sz h] b]] eqn:NT. inversion H; subst; clear H.
+        destruct (next_transmit_rel cf s m s' sz h b t_nesn_nobuf R NT) as (m' & C & R').
+        exists m'. simpl. rewrite C. simpl. auto. }
+    unfold received in H.
+    destruct (ack_bit s (has (mkhdr hl body) nesn_flag)) as [s1 tc] eqn:AB.
+    rewrite mkhdr_has in AB by auto.
+    destruct (m_ack m (has hl nesn_flag)) as [m1 etc] eqn:MA.
+    destruct (ack_bit_rel cf s m _ s1 tc m1 etc R AB MA) as (R1 & TC).
+    pose proof R1 as [Ro1 Rn1 Rq1 Rg1 Rs1 Rm1 Rt1].
+    assert (BL : blen body < 256) by lia.
+    rewrite (mkhdr_has hl body sn_flag P1 eq_refl) in H.
+    rewrite (mkhdr_len_land hl body P1 BL) in H.
+    change (N.land (mkhdr hl body) 3) with (llid (mkhdr hl body)) in H.
+    assert (LL : llid (mkhdr hl body) = llid hl) by (unfold llid; apply mkhdr_land; auto).
+    rewrite LL in H.
+    simpl mstep. rewrite MA. rewrite Rn1.
+    (* the state and monitor after the acceptance decision *)
+    match type of H with
 Show.
